@@ -14,4 +14,5 @@ cd /verif && timeout 3600 ./vcheck "$prop" "$tier" -evidence /tmp/seedev_$seed.j
 by=$(grep -E '^(VIOLATION|  harness=|harness .*ends=)' "$log" | grep -o 'VerifH_[A-Za-z0-9_]*' | sort -u | paste -sd, )
 viol=$(grep -c '^VIOLATION' "$log")
 echo "SEED $seed tier=$tier rc=$rc violations=$viol log=$log"
+python3 /verif/tools/seedcollect.py "$seed" "$tier" "$rc" "$log"
 grep -E 'ends=map\[[^]]*(violation|fail)[^]]*\]' "$log" | awk '{print "   caught-by: " $2}' 
